@@ -48,6 +48,39 @@ Theorem c08_exec_runs :
     match exec_queue now (set_conn s c (clear_tx cn)) c (c_db cn) (c_queue cn) [] with
     | (reps, s2) => (FArray reps, s2) end.
 Proof. exact exec_runs. Qed.
+(** a second WATCH of a key keeps the first baseline, so a change made since the first WATCH
+    still aborts (3f1b680); a key that is past its deadline when it is WATCHed is removed first,
+    so it is absent when the watch begins and does not "change" later (d9330f8) *)
+Theorem c08_rewatch_keeps_baseline :
+  forall now dbi d t k w b, alookup (wkey dbi k) w = Some b ->
+  watch_loop_partial now dbi d t [FBulk k] w = (d, t, w, true).
+Proof. exact rewatch_keeps_baseline. Qed.
+Theorem c08_watch_expires_lazily :
+  forall now dbi d t k e, get_entry d k = Some e -> expired now e = true ->
+  watch_loop_partial now dbi d t [FBulk k] [] =
+    (index_del (del_entry d k) k, snd (register_watch (mark t k) k),
+     [(wkey dbi k, fst (register_watch (mark t k) k))], true).
+Proof. exact watch_expires_lazily. Qed.
+Example c08_rewatch_history :
+  let s0 := connect (connect (init_server None) 1) 2 in
+  let step c s req := snd (process_frame 0 s c (FArray (map FBulk req)) None) in
+  let s1 := step 1 s0 [bs "WATCH"; bs "k"] in
+  let s2 := step 2 s1 [bs "SET"; bs "k"; bs "changed"] in
+  let s3 := step 1 s2 [bs "WATCH"; bs "k"] in
+  let s4 := step 1 s3 [bs "MULTI"] in
+  let s5 := step 1 s4 [bs "SET"; bs "k"; bs "mine"] in
+  fst (process_frame 0 s5 1 (FArray [FBulk (bs "EXEC")]) None) = FNullArray.
+Proof. vm_compute. reflexivity. Qed.
+Example c08_watch_after_deadline_history :
+  let s0 := connect (connect (init_server None) 1) 2 in
+  let step t c s req := snd (process_frame t s c (FArray (map FBulk req)) None) in
+  let s1 := step 0 2 s0 [bs "SET"; bs "k"; bs "v"; bs "PX"; bs "200"] in
+  let s2 := step 300 1 s1 [bs "WATCH"; bs "k"] in
+  let s3 := step 300 1 s2 [bs "MULTI"] in
+  let s4 := step 300 1 s3 [bs "SET"; bs "other"; bs "1"] in
+  fst (process_frame 300 s4 1 (FArray [FBulk (bs "EXEC")]) None) = FArray [r_ok].
+Proof. vm_compute. reflexivity. Qed.
+
 (** the encoding of (database, key) pairs is exact *)
 Theorem c08_wkey_exact : forall d k, wkey_db (wkey d k) = d /\ wkey_key (wkey d k) = k.
 Proof. intros; split; reflexivity. Qed.
